@@ -558,6 +558,196 @@ func genLocks(pkgs map[string]*pkg) {
 }
 
 // genStopOrder: the order of the teardown actions in service.stop
+// genRingRoles: who touches which side of the two rings of a connection.  The call graph of the methods of service
+// (calls through the receiver variable, whatever it is called) is closed under "only called from": a ring operation
+// belongs to a role if the function it occurs in is the role's entry function or a helper all of whose callers
+// (transitively) are.  Single producer / single consumer is the hypothesis of C14 and C15.
+func genRingRoles(svc *pkg) {
+	type fn struct {
+		name  string
+		calls map[string]bool            // methods of service it calls through its receiver
+		ops   map[string]map[string]bool // ring ("in" / "out") -> methods of the ring it calls
+	}
+	fns := map[string]*fn{}
+	isMethod := map[string]bool{}
+	for _, af := range svc.files {
+		for _, d := range af.Decls {
+			fd, ok := d.(*ast.FuncDecl)
+			if !ok || fd.Body == nil || fd.Recv == nil || len(fd.Recv.List) != 1 {
+				continue
+			}
+			t := fd.Recv.List[0].Type
+			if st, ok := t.(*ast.StarExpr); ok {
+				t = st.X
+			}
+			if id, ok := t.(*ast.Ident); ok && id.Name == "service" {
+				isMethod[fd.Name.Name] = true
+			}
+		}
+	}
+	for _, af := range svc.files {
+		for _, d := range af.Decls {
+			fd, ok := d.(*ast.FuncDecl)
+			if !ok || fd.Body == nil || fd.Recv == nil || len(fd.Recv.List) != 1 || len(fd.Recv.List[0].Names) != 1 || !isMethod[fd.Name.Name] {
+				continue
+			}
+			t := fd.Recv.List[0].Type
+			if st, ok := t.(*ast.StarExpr); ok {
+				t = st.X
+			}
+			if id, ok := t.(*ast.Ident); !ok || id.Name != "service" {
+				continue
+			}
+			rv := fd.Recv.List[0].Names[0].Name
+			f := &fn{name: fd.Name.Name, calls: map[string]bool{}, ops: map[string]map[string]bool{"in": {}, "out": {}}}
+			fns[f.name] = f
+			ast.Inspect(fd.Body, func(n ast.Node) bool {
+				se, ok := n.(*ast.SelectorExpr)
+				if !ok {
+					return true
+				}
+				// rv.m (called, or taken as a function value)
+				if id, ok := se.X.(*ast.Ident); ok && id.Name == rv && isMethod[se.Sel.Name] {
+					f.calls[se.Sel.Name] = true
+				}
+				// rv.in.M / rv.out.M
+				if inner, ok := se.X.(*ast.SelectorExpr); ok {
+					if id, ok := inner.X.(*ast.Ident); ok && id.Name == rv && (inner.Sel.Name == "in" || inner.Sel.Name == "out") {
+						f.ops[inner.Sel.Name][se.Sel.Name] = true
+					}
+				}
+				return true
+			})
+		}
+	}
+	callers := map[string][]string{}
+	for _, f := range fns {
+		for c := range f.calls {
+			callers[c] = append(callers[c], f.name)
+		}
+	}
+	// references from the other functions of the package (Client and Server methods reach a service through a field)
+	for _, af := range svc.files {
+		for _, d := range af.Decls {
+			fd, ok := d.(*ast.FuncDecl)
+			if !ok || fd.Body == nil {
+				continue
+			}
+			if _, isSvc := fns[fd.Name.Name]; isSvc && fd.Recv != nil {
+				t := fd.Recv.List[0].Type
+				if st, ok := t.(*ast.StarExpr); ok {
+					t = st.X
+				}
+				if id, ok := t.(*ast.Ident); ok && id.Name == "service" {
+					continue
+				}
+			}
+			outer := "(" + fd.Name.Name + ")"
+			ast.Inspect(fd.Body, func(n ast.Node) bool {
+				if se, ok := n.(*ast.SelectorExpr); ok && isMethod[se.Sel.Name] {
+					if _, isIdent := se.X.(*ast.Ident); !isIdent || true {
+						callers[se.Sel.Name] = append(callers[se.Sel.Name], outer)
+					}
+				}
+				return true
+			})
+		}
+	}
+	var dominated func(f, root string, seen map[string]bool) bool
+	dominated = func(f, root string, seen map[string]bool) bool {
+		if f == root {
+			return true
+		}
+		if seen[f] {
+			return true
+		}
+		seen[f] = true
+		if f[0] == '(' {
+			return false // a function outside the service type: not under any of the roles
+		}
+		if len(callers[f]) == 0 {
+			return true // a method nothing in the package refers to (kept for the tests): not part of any running role
+		}
+		for _, c := range callers[f] {
+			if !dominated(c, root, seen) {
+				return false
+			}
+		}
+		return true
+	}
+	role := func(ring string, methods []string, root string) (bool, int) {
+		ok, n := true, 0
+		for _, f := range fns {
+			for _, m := range methods {
+				if f.ops[ring][m] {
+					n++
+					if !dominated(f.name, root, map[string]bool{}) {
+						ok = false
+					}
+				}
+			}
+		}
+		return ok, n
+	}
+	produce := []string{"Write", "WriteWait", "WriteCommit", "ReadFrom"}
+	consume := []string{"Read", "ReadPeek", "ReadWait", "ReadCommit", "WriteTo"}
+	emit("(* who uses which side of a connection's rings: every producer call on the outgoing ring lies under writeMessage (the")
+	emit("   write mutex), its consumer calls under the sender goroutine; the incoming ring is produced by the receiver goroutine")
+	emit("   and consumed under the processor goroutine (helpers count with the functions that alone call them) *)")
+	a, n1 := role("out", produce, "writeMessage")
+	b, n2 := role("out", consume, "sender")
+	c, n3 := role("in", produce, "receiver")
+	d, n4 := role("in", consume, "processor")
+	// writeMessage takes the write mutex (unlock deferred) before it touches the outgoing ring or calls a helper that does
+	wmuFirst := false
+	for _, af := range svc.files {
+		for _, d := range af.Decls {
+			fd, ok := d.(*ast.FuncDecl)
+			if !ok || fd.Body == nil || fd.Name.Name != "writeMessage" || fd.Recv == nil || len(fd.Recv.List[0].Names) != 1 {
+				continue
+			}
+			rv := fd.Recv.List[0].Names[0].Name
+			lockPos, deferPos := token.NoPos, token.NoPos
+			first := token.NoPos
+			ast.Inspect(fd.Body, func(n ast.Node) bool {
+				switch st := n.(type) {
+				case *ast.DeferStmt:
+					if src(st.Call) == rv+".wmu.Unlock()" && deferPos == token.NoPos {
+						deferPos = st.Pos()
+					}
+				case *ast.CallExpr:
+					if src(st) == rv+".wmu.Lock()" && lockPos == token.NoPos {
+						lockPos = st.Pos()
+					}
+					if se, ok := st.Fun.(*ast.SelectorExpr); ok {
+						touches := false
+						if inner, ok := se.X.(*ast.SelectorExpr); ok {
+							if id, ok := inner.X.(*ast.Ident); ok && id.Name == rv && inner.Sel.Name == "out" {
+								touches = true
+							}
+						}
+						if id, ok := se.X.(*ast.Ident); ok && id.Name == rv && isMethod[se.Sel.Name] {
+							if cf := fns[se.Sel.Name]; cf != nil && len(cf.ops["out"]) > 0 {
+								touches = true
+							}
+						}
+						if touches && (first == token.NoPos || st.Pos() < first) {
+							first = st.Pos()
+						}
+					}
+				}
+				return true
+			})
+			wmuFirst = lockPos != token.NoPos && deferPos != token.NoPos && first != token.NoPos && lockPos < first && deferPos < first
+		}
+	}
+	emit("Definition wmu_taken_before_ring_ops : bool := %v.", wmuFirst)
+	emit("Definition ring_out_produced_under_writeMessage : bool := %v.", a && n1 > 0)
+	emit("Definition ring_out_consumed_by_sender : bool := %v.", b && n2 > 0)
+	emit("Definition ring_in_produced_by_receiver : bool := %v.", c && n3 > 0)
+	emit("Definition ring_in_consumed_by_processor : bool := %v.", d && n4 > 0)
+}
+
 func genStopOrder(svc *pkg) {
 	fd := svc.fn("service.go", "service", "stop")
 	marks := []struct{ key, name string }{
